@@ -98,6 +98,8 @@ def run(ctx, rep):
     rep.rule("I5", "implied constants and their positions agree at every site: state coefficient 0 = d^-1/2; POVM total = d^1/2 e0 "
                    "(d^1/2/m per element); gate row 0 = e0; measurement-process implied row = e0 - sum of first rows, at the last block", floor=12)
     rep.rule("I6", "slot conformance for the four types (shared with C02 R5)", floor=28)
+    rep.rule("I8", "option wiring: where a function hands its own parameters on by keyword, no parameter is handed to the slot of ANOTHER "
+                   "of its parameters that the callee also has (on_para_eq_constraint=on_algo_eq_constraint ...)", floor=20)
     rep.rule("I7", "a method that re-creates its object (generate_from_var, copy) hands every stored constructor parameter the "
                    "instance's own value or a caller override defaulting to it", floor=20)
 
@@ -126,6 +128,7 @@ def run(ctx, rep):
             rep.holds("I6", m, con, "call binds", node=call)
     # ---------------------------------------------------------------------- I7
     _check_recreation(ctx, rep, base)
+    _check_cross_wiring(ctx, rep)
 
 
 # ------------------------------------------------------------------------------ I1
@@ -904,6 +907,29 @@ def _size_poly_loop(e, f, defs, loopvar):
         if isinstance(e.op, ast.Pow):
             return l ** r
     return _size_poly(e, f, defs)
+
+
+# ------------------------------------------------------------------------------ I8
+def _check_cross_wiring(ctx, rep):
+    """conversions between variables and objects hand every option to the like-named slot"""
+    from ..slots import cross_wired_keywords
+    n = 0
+    for f in ctx.ix.funcs.values():
+        if not f.module.name.startswith(("quara.objects", "quara.protocol.qtomography")):
+            continue
+        kws = [c for c in own_nodes(f.node) if isinstance(c, ast.Call) and any(k.arg and isinstance(k.value, ast.Name) and k.arg == k.value.id
+                                                                              and k.arg in {p.arg for p in f.all_params} for k in c.keywords)]
+        bad = list(cross_wired_keywords(ctx, f))
+        for call, k, v, tq in bad:
+            rep.violation("I8", f, "%s: %s=%s" % (f.name, k, v), "the caller's option `%s` is handed to the slot `%s` of %s, which has a slot `%s` of its own: "
+                          "the re-created object is built under a different option than the one the variables were read with"
+                          % (v, k, tq.split("quara.")[-1], v), node=call)
+        if kws and not bad:
+            n += 1
+            rep.holds("I8", f, "%s: options forwarded by name" % f.name, "%d call(s) pass the function's own options to like-named slots" % len(kws),
+                      node=kws[0], nontrivial=False)
+    if n == 0:
+        rep.undecided("I8", "quara.objects", "option forwarding", "no call forwarding a parameter under its own name found")
 
 
 # ------------------------------------------------------------------------------ I7
